@@ -17,6 +17,11 @@ fn table() -> Vec<Prop> {
         Prop { id: "C03", level: "exploration", run: props::c03::run, replay: props::c03::replay },
         Prop { id: "C04", level: "exploration", run: props::c04::run, replay: props::c04::replay },
         Prop { id: "C16", level: "exploration", run: props::c16::run, replay: props::c16::replay },
+        Prop { id: "C05", level: "exploration", run: props::c05::run, replay: props::c05::replay },
+        Prop { id: "C06", level: "exploration", run: props::c06::run, replay: props::c06::replay },
+        Prop { id: "C19", level: "exploration", run: props::c19::run, replay: props::c19::replay },
+        Prop { id: "C13", level: "exploration", run: props::c13::run, replay: props::c13::replay },
+        Prop { id: "C14", level: "exploration", run: props::c14::run, replay: props::c14::replay },
         Prop { id: "C15", level: "exploration", run: props::c15::run, replay: props::c15::replay },
         Prop { id: "C17", level: "exploration", run: props::c17::run, replay: props::c17::replay },
         Prop { id: "C18", level: "exploration", run: props::c18::run, replay: props::c18::replay },
